@@ -144,3 +144,108 @@ def attr_chain(n):
         parts.append(n.id)
         return list(reversed(parts))
     return None
+
+
+# ---------------------------------------------------------------- guard clauses -> one boolean expression
+def _is_doc(s):
+    return isinstance(s, ast.Expr) and isinstance(s.value, ast.Constant) and isinstance(s.value.value, str)
+
+
+class _Subst(ast.NodeTransformer):
+    def __init__(self, env):
+        self.env = env
+
+    def visit_Name(self, n):
+        if isinstance(n.ctx, ast.Load) and n.id in self.env:
+            return self.env[n.id]
+        return n
+
+
+def _pure_alias(e):
+    """right-hand sides that may be substituted for the local they are bound to: names, attribute chains,
+    and calls whose arguments are such (the translators accept only total, effect-free calls anyway and
+    fail closed on anything else)"""
+    if isinstance(e, ast.Name) or attr_chain(e) is not None:
+        return True
+    if isinstance(e, ast.Call) and not e.keywords:
+        return (isinstance(e.func, ast.Name) or attr_chain(e.func) is not None) and all(_pure_alias(a) for a in e.args)
+    return False
+
+
+def body_as_expr(fn, stmts=None, frozen=()):
+    """The body of a boolean-valued function written with guard clauses, as ONE expression (an ast node) that
+    the BoolTranslator reads like the single-return spelling:
+
+        x = <pure expr>          the local is replaced by the expression (bound once, operands never rebound)
+        if not X: return X       ->  X and <rest>        (a falsy X is the result, as with `and`)
+        if C: return True        ->  C or <rest>
+        if C: return False       ->  (not C) and <rest>
+        if C: return A           ->  (C and A) or ((not C) and <rest>)     [booleans]
+        if C: return A / else: return B   likewise
+        return E                 ->  E
+
+    Docstrings are dropped.  Anything else raises TranslateError.  `frozen`: names that must not be assigned
+    (parameters whose value the caller has already interpreted)."""
+    stmts = list(fn.body if stmts is None else stmts)
+    assigned = {}
+    for n in ast.walk(ast.Module(body=stmts, type_ignores=[])):
+        if isinstance(n, (ast.Assign, ast.AugAssign, ast.AnnAssign, ast.For, ast.While, ast.With, ast.Try, ast.Global,
+                          ast.Nonlocal, ast.Delete, ast.NamedExpr)) and not isinstance(n, ast.Assign):
+            raise TranslateError('%s: unsupported statement %s' % (fn.name, type(n).__name__))
+        if isinstance(n, ast.Assign):
+            for t in n.targets:
+                if not isinstance(t, ast.Name):
+                    raise TranslateError('%s: assignment to something that is not a local name' % fn.name)
+                assigned[t.id] = assigned.get(t.id, 0) + 1
+    params = {a.arg for a in fn.args.args}
+    for name, k in assigned.items():
+        if k != 1 or name in params or name in frozen:
+            raise TranslateError('%s: local %s is bound more than once or rebinds a parameter' % (fn.name, name))
+
+    def same(a, b):
+        return ast.dump(a) == ast.dump(b)
+
+    def conv(ss, env):
+        ss = [x for x in ss if not _is_doc(x)]
+        if not ss:
+            raise TranslateError('%s: control can fall off the end' % fn.name)
+        s, rest = ss[0], ss[1:]
+        if isinstance(s, ast.Return):
+            if s.value is None:
+                raise TranslateError('%s: bare return' % fn.name)
+            return _Subst(env).visit(_copy(s.value))
+        if isinstance(s, ast.Assign):
+            val = _Subst(env).visit(_copy(s.value))
+            if not _pure_alias(val):
+                raise TranslateError('%s: local %s is bound to an expression that cannot be substituted' % (fn.name, s.targets[0].id))
+            env2 = dict(env)
+            env2[s.targets[0].id] = val
+            return conv(rest, env2)
+        if isinstance(s, ast.If):
+            c = _Subst(env).visit(_copy(s.test))
+            a = conv(s.body, env)
+            b = conv(s.orelse, env) if s.orelse else conv(rest, env)
+            if s.orelse and rest:
+                raise TranslateError('%s: statements after an if/else that always returns' % fn.name)
+            if isinstance(c, ast.UnaryOp) and isinstance(c.op, ast.Not) and same(c.operand, a):
+                return _and(a, b)
+            if isinstance(a, ast.Constant) and a.value is True:
+                return _or(c, b)
+            if isinstance(a, ast.Constant) and a.value is False:
+                return _and(ast.UnaryOp(ast.Not(), c), b)
+            return _or(_and(c, a), _and(ast.UnaryOp(ast.Not(), _copy(c)), b))
+        raise TranslateError('%s: unsupported statement %s' % (fn.name, type(s).__name__))
+    return conv(stmts, {})
+
+
+def _copy(n):
+    import copy
+    return copy.deepcopy(n)
+
+
+def _and(a, b):
+    return ast.BoolOp(ast.And(), [a, b])
+
+
+def _or(a, b):
+    return ast.BoolOp(ast.Or(), [a, b])
